@@ -199,8 +199,8 @@ Definition ok (c : casety) : nat :=
   (* forward error of the implementation's radical = sqrt(radicand): the radicand carries an
      absolute rounding error ~2^-49, so the radical ~2^-50/radical (capped at its square root) *)
   (* repaired radical rule: the decision `scaled or radicand <= 0` is within rounding when
-     |radicand| <= 2^-46; the implementation's radical is then anything in [0, 2^-24] *)
-  let kc := if FX && bf_leb (babs radicand) (bf_of 1 (-46)) then bf_of 1 (-24)
+     |radicand| <= 2^-46; the implementation's radical is then anything in [0, 2^-22] *)
+  let kc := if FX && bf_leb (babs radicand) (bf_of 1 (-46)) then bf_of 1 (-22)
             else if snapped then zero N else bmin (div N (bf_of 1 (-48)) radical) (bf_of 1 (-24)) in
   let rS := a_radius P in let z := arc_zp1_of N T start rot end_ in
   let wabs := add N (babs (div N (mul N (fst rS) (snd z)) (snd rS)))
